@@ -352,6 +352,55 @@ def make_sim_strided(root, simname, restarts=3):
                         ds.attrs['time'] = 0.5 * it
 
 
+# third directory shape: a restart with a single iteration, then a range that neither contains nor adjoins it, then a
+# restart continuing with the same stride; one thorn writes two grouped files whose groups aurel does not know
+SINGLE = [(0, 0, 2), (8, 12, 2), (14, 18, 2)]
+GROUPED3 = {'alp.h5': ('ADMBASE', ['alp']), 'mythorn-grpa.h5': ('MYTHORN', ['ua1', 'ua2']), 'mythorn-grpb.h5': ('MYTHORN', ['ub1', 'ub2'])}
+
+
+def single_round_trip(simname):
+    """-> list of problems for the third directory shape (real functions, temporary directory)"""
+    from aurel import reading
+    import io
+    import contextlib
+    global STRIDED, GROUPED
+    bad = []
+    root = tempfile.mkdtemp(prefix='c18t_')
+    saved = STRIDED, GROUPED
+    STRIDED, GROUPED = SINGLE, GROUPED3
+    try:
+        make_sim_strided(root + '/', simname, restarts=3)
+        param = {'simname': simname, 'simpath': root + '/'}
+        with contextlib.redirect_stdout(io.StringIO()):
+            try:
+                mem = reading.iterations(param, skip_last=False, verbose=False)
+                snap = normal(mem)
+                again = reading.iterations(param, skip_last=False, verbose=False)
+                parsed = reading.read_iterations(param, skip_last=False, verbose=False)
+                cont = reading.get_content(param, restart=1, verbose=False)
+                cont_fresh = reading.get_content(param, restart=1, verbose=False, overwrite=True)
+            except Exception as e:  # noqa
+                return [f'third shape: {type(e).__name__}: {e}'[:160]]
+        if snap != normal(again):
+            bad.append('third shape: second call differs from the first call')
+        if normal({k: v for k, v in mem.items() if k != 'overall'}) != normal(parsed):
+            bad.append('third shape: iterations.txt parses to something else than what was returned in memory')
+        for r in (1, 2):
+            lo, hi, st = SINGLE[r]
+            got = [int(x) for x in mem.get(r, {}).get('rl = 0', [])]
+            if got != [lo, hi, st]:
+                bad.append(f"third shape: restart {r} catalogued as {got}, on disk {[lo, hi, st]}")
+        want = {tuple(vs): [fn] for fn, (_, vs) in GROUPED3.items()}
+        for tag, c_ in (('first', cont), ('overwrite=True', cont_fresh)):
+            got = {tuple(k): sorted(os.path.basename(x) for x in v) for k, v in c_.items()}
+            if got != want:
+                bad.append(f'third shape: content catalogue ({tag}) maps {got}, on disk {want}')
+    finally:
+        STRIDED, GROUPED = saved
+        shutil.rmtree(root, ignore_errors=True)
+    return bad
+
+
 def strided_round_trip(simname):
     """-> list of problems for the strided / two-thorn directory (real functions, temporary directory)"""
     from aurel import reading
@@ -503,9 +552,9 @@ def round_trips(report, tier):
         finally:
             shutil.rmtree(root, ignore_errors=True)
     for simname in ('strided', 'a restart b'):
-        for what in strided_round_trip(simname):
+        for what in strided_round_trip(simname) + single_round_trip(simname):
             bad.append((simname + ' [strided restarts, two thorns with one group name]', what))
-    report.record(f'catalogue round trips on generated directories ({len(names)} simulation names incl. catalogue keywords; 2 directory shapes)',
+    report.record(f'catalogue round trips on generated directories ({len(names)} simulation names incl. catalogue keywords; 3 directory shapes)',
                   'holds' if not bad else 'sat', group='concrete executions', kind='concrete', trivial=True)
     seen = set()
     for simname, what in bad:
